@@ -349,6 +349,100 @@ func (g *Grammar) NullableLoops() bool {
 	return found
 }
 
+// NullableLoopOutsideCycles reports whether some repetition whose operand can
+// match the empty string sits in a rule that is not certain to lie on a
+// left-recursive cycle. "Certain" is deliberately narrow: a reference counts
+// as leading only when everything before it is nullable by its very form (*, ?,
+// predicates, state blocks, the empty literal) - not through +, a throw or the
+// nullability of another rule, about which analyses differ (pigeon calls e+
+// non-nullable whatever e is).
+func (g *Grammar) NullableLoopOutsideCycles() bool {
+	null := g.Nullable()
+	var sureNull func(e *Expr) bool
+	sureNull = func(e *Expr) bool {
+		switch e.Kind {
+		case Lit:
+			return e.Text == ""
+		case Star, Opt, And, Not, AndCode, NotCode, State:
+			return true
+		case Label, Action:
+			return sureNull(e.Subs[0])
+		case Seq:
+			for _, s := range e.Subs {
+				if !sureNull(s) {
+					return false
+				}
+			}
+			return true
+		case Choice:
+			for _, s := range e.Subs {
+				if sureNull(s) {
+					return true
+				}
+			}
+		}
+		return false
+	}
+	var first func(e *Expr, out map[string]bool)
+	first = func(e *Expr, out map[string]bool) {
+		switch e.Kind {
+		case Seq:
+			for _, s := range e.Subs {
+				first(s, out)
+				if !sureNull(s) {
+					return
+				}
+			}
+		case Choice:
+			for _, s := range e.Subs {
+				first(s, out)
+			}
+		case Star, Plus, Opt, And, Not, Label, Action:
+			first(e.Subs[0], out)
+		case Ref:
+			out[e.Name] = true
+		case Recover:
+			first(e.Subs[0], out)
+		}
+	}
+	graph := map[string]map[string]bool{}
+	for _, r := range g.Rules {
+		m := map[string]bool{}
+		first(r.Expr, m)
+		graph[r.Name] = m
+	}
+	reachesItself := func(start string) bool {
+		seen := map[string]bool{}
+		stack := []string{start}
+		for len(stack) > 0 {
+			n := stack[len(stack)-1]
+			stack = stack[:len(stack)-1]
+			for m := range graph[n] {
+				if m == start {
+					return true
+				}
+				if !seen[m] {
+					seen[m] = true
+					stack = append(stack, m)
+				}
+			}
+		}
+		return false
+	}
+	found := false
+	for _, r := range g.Rules {
+		if reachesItself(r.Name) {
+			continue
+		}
+		Walk(r.Expr, func(e *Expr) {
+			if (e.Kind == Star || e.Kind == Plus) && ExprNullable(e.Subs[0], null) {
+				found = true
+			}
+		})
+	}
+	return found
+}
+
 // ---------------------------------------------------------------------------
 // Printing
 
